@@ -2,14 +2,14 @@
   Proofs/PartLemmas.lean — helper lemmas about `Re.m` on the digit-run regexes.
 -/
 import BumpverVerif.Model.V2Version
+import BumpverVerif.Model.ReDecEq
 import BumpverVerif.Proofs.Digits
 import BumpverVerif.Proofs.V2Lemmas
 import BumpverVerif.Proofs.CalendarLemmas
 namespace BV
 
-/- `Re` carries no `DecidableEq` in the model (it is not needed by the driver); the closed shape
-   obligations of Props/C02.lean compare parsed regexes by kernel evaluation -/
-deriving instance DecidableEq for Re
+/- `Re` carries no `DecidableEq` in the model files the driver links (it is not needed there); the closed shape
+   obligations of Props/C02.lean compare parsed regexes by kernel evaluation: instance in Model/ReDecEq.lean -/
 
 /-! ### the two character classes `[0-9]` and `[1-9]` -/
 
